@@ -905,7 +905,8 @@ package tcell
 //@   ensures [one-offer] calls("*select:nonblocking:send:eventQ") <= 1
 //@   modifies t.cx, t.cy, t.cells.w, t.cells.h, t.cells.cells, t.cells.cells[*], t.w, t.h
 
-// PostEvent: nil exactly when the event was queued, ErrEventQFull exactly when it was not.
+// PostEvent: nil exactly when the event was queued, ErrEventQFull exactly when it was not; it looks at the stop channel
+// first, so that nothing is queued on a finished screen (where it would never be delivered).
 //@ func (*baseScreen).PostEvent
 //@   arith math
 //@   requires !isNil(b.screenImpl)
@@ -913,6 +914,7 @@ package tcell
 //@   ensures [exact] isNil(result) == (calls("*selsend:EventQ()") == 1)
 //@   ensures [full] !isNil(result) ==> result == ErrEventQFull
 //@   calls [same-event] call("*selsend:EventQ()", sent) ==> sent == ev
+//@   calls [not-after-stop] call("*selsend:EventQ()", sent) ==> stepcalls("select:nonblocking:recv:StopQ()") == 1
 //@   modifies nothing
 
 // PostEventWait blocks until queued or stopped; never drops.
@@ -934,13 +936,15 @@ package tcell
 //@   calls [nil-on-stop] call("*selrecv:StopQ()", x) ==> isNil(result)
 //@   modifies nothing
 
-// ChannelEvents forwards every event it takes off the queue, unchanged, and closes ch on every way out.
+// ChannelEvents forwards every event it takes off the queue, unchanged, closes ch on every way out, and every place
+// where it can wait offers the screen's stop channel (so Fini always gets the channel closed).
 //@ func (*baseScreen).ChannelEvents
 //@   arith math
 //@   requires !isNil(b.screenImpl)
 //@   calls [forwards] pair("*selrecv:EventQ()", got, "*selsend:ch", v) ==> v == got
 //@   calls [never-drops] call("*select:nonblocking", a) ==> false
 //@   calls [interruptible] call("send:ch", v) ==> false
+//@   calls [stoppable] call("*select:blocking", a) ==> stepcalls("*select:blocking") == stepcalls("select:blocking:*recv:StopQ()*")
 //@   ensures [closes] calls("*close:ch") == 1
 //@   loop 1:
 //@     invariant [run] true
